@@ -1,0 +1,27 @@
+//go:build verif
+
+package shaping
+
+import (
+	"github.com/go-text/typesetting/font"
+	"github.com/go-text/typesetting/harfbuzz"
+)
+
+// VerifFontCache exposes the state of the shaper's font cache (verification hook, C13):
+// the entries from the least to the most recently used one (key, and the face the cached
+// harfbuzz.Font was built from), the number of keys in the map and the configured maximum.
+func (h *HarfbuzzShaper) VerifFontCache() (keys, fontFaces []*font.Face, mapLen, maxSize int) {
+	l := &h.fonts
+	mapLen, maxSize = len(l.m), l.maxSize
+	if l.m == nil {
+		return nil, nil, mapLen, maxSize
+	}
+	for e := l.tail.next; e != nil && e != l.head; e = e.next {
+		keys = append(keys, e.key)
+		fontFaces = append(fontFaces, e.v.Face())
+	}
+	return keys, fontFaces, mapLen, maxSize
+}
+
+// VerifBuffer returns the harfbuzz buffer reused by the shaper (nil before the first Shape).
+func (h *HarfbuzzShaper) VerifBuffer() *harfbuzz.Buffer { return h.buf }
